@@ -1,6 +1,7 @@
 """C08 - maxvol / maxvol_rect return distinct dominant rows and an exact coefficient matrix; rejection contracts; _maxvol dispatch."""
 import math
 import numpy as np
+import scipy.linalg
 from hypothesis import strategies as st
 
 import harness.core  # noqa: F401  (sets sys.path for the code under test)
@@ -22,14 +23,16 @@ RULE = ("Hypothesis draws tall matrices of full column rank BY CONSTRUCTION: r g
         "dr_max==0, dr values beyond n-r and dr_min>dr_max (clamped). Oracle = validity predicates (never an expected index "
         "vector) + an independently solved B_ref = A inv(A[I]). Non-trivial = n-r >= 2 and (cond >= 1e4 or zero/duplicate rows "
         "or dr_min > 0); distinct by SHA-1 of the case (+ iteration limit).")
-TOLERANCES = ("max|A - B A[I]| <= 64 eps q max|A| max(1,max|B|), q = len(I) (residual of backward-stable triangular solves and "
-              "rank-one updates is independent of cond(A); observed worst 1.1 eps q max|A| max|B| over 6e4 matrices up to cond 1e8); "
-              "square: max|B[I] - Id| <= 64 eps r cond2(A) max(1,max|B|) (forward error of the LU start, observed worst 0.54 "
-              "eps r cond max|B|); rect: B[I] == Id bit-for-bit (assigned); k = 10^5: returned max|B| <= e exactly (the loop's own "
-              "stop test) and max|B_ref| <= e(1+1e-9) + 64 eps r cond2(A[I]) max(1,max|B_ref|) (forward error of my solve and of "
-              "the library's B, observed worst 0.83); log|det A[I(k2)]| >= log|det A[I(k1)]| - 64 r eps (cond2(A[I1]) + "
-              "cond2(A[I2])) for k1 < k2; rect early stop: row norms <= e(1+1e-9) + 64 eps q F0, F0 = largest squared row norm "
-              "of the maxvol start (cancellation in the downdated squared norms F - l v^2)")
+TOLERANCES = ("max|A - B A[I]| <= 64 eps q max|A| g, q = len(I), g = max(max|B|, max|L inv(L[:r])| of my own partial-pivoting LU of A) = "
+              "largest coefficient matrix of the run (rounding committed while B was large stays in B after it has shrunk; g <= 2^(r-1)). "
+              "The residual of backward-stable triangular solves and of rank-one updates does not grow with cond(A): observed worst "
+              "1.1 eps q max|A| g over 7e4 matrices up to cond 1e8, i.e. 1/60 of the bound. Square variant: max|B[I] - Id| <= 64 eps r "
+              "cond2(A) g (forward error of the LU start, observed worst 0.54 eps r cond g); rect: B[I] == Id bit-for-bit (assigned). "
+              "k = 10^5: returned max|B| <= e exactly (the loop's own stop test) and max|B_ref| <= e(1+1e-9) + 64 eps r cond2(A[I]) "
+              "max(1,max|B_ref|) (forward error of my solve and of the library's B, observed worst 0.83 of eps r cond2(A[I]) max|B|); "
+              "log|det A[I(k2)]| >= log|det A[I(k1)]| - 64 r eps (cond2(A[I1]) + cond2(A[I2])) for k1 < k2; rect early stop: row norms "
+              "<= e(1+1e-9) + 64 eps q F0, F0 = largest squared row norm of the maxvol start (cancellation in the downdated squared "
+              "norms F - l v^2)")
 ASSUMPTIONS = ["A is tall with full column rank (guaranteed by construction: r generic rows are never overwritten), finite, |entries| in "
                "[1e-11, 1e4] or 0", "cond2(A) <= ~1e8 for the prescribed-spectrum family; for raw Gaussian/integer matrices the "
                "tolerances use the actual cond2(A) computed by LAPACK SVD", "e, e0 >= 1.01; k, k0 >= 1; r <= 8 so that 10^5 "
@@ -124,6 +127,15 @@ def matrix_labels(ctx, spec, A, cond):
     return bool(kinds)
 
 
+def start_growth(A):
+    """max|L inv(L[:r])| of a partial-pivoting LU of A: the size of the coefficient matrix maxvol starts from (<= 2^(r-1)).
+    Only a SCALE for the rounding tolerances (errors committed while B was large stay in B after it has shrunk), never an oracle."""
+    r = A.shape[1]
+    _, L, _ = scipy.linalg.lu(A)
+    B0 = scipy.linalg.solve_triangular(L[:r].T, L.T, lower=False, unit_diagonal=True).T
+    return max(1.0, float(np.max(np.abs(B0))))
+
+
 def validate(ctx, what, A, I, B, lo, hi, exact_identity, cond):
     """Oracles shared by both variants: index vector, shape, B[I] = identity, A = B A[I]."""
     n, r = A.shape
@@ -137,7 +149,7 @@ def validate(ctx, what, A, I, B, lo, hi, exact_identity, cond):
     ctx.check(isinstance(B, np.ndarray) and B.dtype.kind == "f" and B.shape == (n, q), f"{what}: B is not a float array of shape [n, len(I)]",
               shape=getattr(B, "shape", None), expected=(n, q))
     ctx.check(bool(np.all(np.isfinite(B))), f"{what}: B has non-finite entries")
-    mB = max(1.0, float(np.max(np.abs(B))))
+    mB = max(start_growth(A), float(np.max(np.abs(B))))
     mA = float(np.max(np.abs(A)))
     if exact_identity:
         ctx.check(np.array_equal(B[I], np.eye(q)), f"{what}: B[I] is not exactly the identity", defect=float(np.max(np.abs(B[I] - np.eye(q)))))
